@@ -61,6 +61,13 @@ pub struct Case {
     pub sub: SubKind,
     pub nofile: u64,
     pub op: POp,
+    /// which of the kernel's mount-API entry points exist for the library
+    #[serde(default = "kcfg_full")]
+    pub kcfg: Kcfg,
+}
+
+fn kcfg_full() -> Kcfg {
+    Kcfg::Full
 }
 
 pub fn all_cases() -> Vec<Case> {
@@ -71,12 +78,14 @@ pub fn all_cases() -> Vec<Case> {
                 for base in [PBase::Root, PBase::SelfBase, PBase::ThreadSelf] {
                     for sub in [SubKind::Existing, SubKind::Missing, SubKind::MaskedButExisting] {
                         for nofile in [64u64, 1024, 65536] {
-                            let op = match (v.len()) % 3 {
-                                0 => POp::Open,
-                                1 => POp::Readlink,
-                                _ => POp::OpenFollow,
-                            };
-                            v.push(Case { unprivileged, proc_opt, ctor, base, sub, nofile, op });
+                            for kcfg in [Kcfg::Full, Kcfg::NoFsopen, Kcfg::NoMountApi, Kcfg::NoOpenat2NoFsopen] {
+                                let op = match (v.len() / 4) % 3 {
+                                    0 => POp::Open,
+                                    1 => POp::Readlink,
+                                    _ => POp::OpenFollow,
+                                };
+                                v.push(Case { unprivileged, proc_opt, ctor, base, sub, nofile, op, kcfg });
+                            }
                         }
                     }
                 }
@@ -145,24 +154,25 @@ pub fn child(case: &Case) -> Report {
     let peak = Arc::new(AtomicUsize::new(0));
     let (c2, a2, p2) = (creations.clone(), acquisitions.clone(), peak.clone());
     let scan = (case.nofile.min(300)) as i32;
+    let first = match case.kcfg {
+        Kcfg::Full | Kcfg::NoOpenat2 => 0,
+        Kcfg::NoFsopen | Kcfg::NoOpenat2NoFsopen => 1,
+        _ => 2,
+    };
     let hook: Hook = Box::new(move |sys: &Sys, _c: &mut CallRec| {
-        match sys.name.as_str() {
-            // every ProcfsHandle::new()/new_unmasked() starts with fsopen(2)
-            "fsopen" => {
-                c2.fetch_add(1, Ordering::SeqCst);
-            }
-            "fsmount" => {
-                a2.fetch_add(1, Ordering::SeqCst);
-            }
-            "open_tree" => {
-                a2.fetch_add(1, Ordering::SeqCst);
-            }
-            "openat" => {
-                if sys.paths.first().map(|p| p.0 == b"/proc").unwrap_or(false) {
-                    a2.fetch_add(1, Ordering::SeqCst);
-                }
-            }
-            _ => {}
+        // every ProcfsHandle::new()/new_unmasked() starts with the first mount-API entry
+        // point the kernel configuration offers: fsopen(2), else open_tree(2), else open("/proc")
+        let opens_proc = sys.name == "openat" && sys.paths.first().map(|p| p.0 == b"/proc").unwrap_or(false);
+        let first_stage = match first {
+            0 => sys.name == "fsopen",
+            1 => sys.name == "open_tree",
+            _ => opens_proc,
+        };
+        if first_stage {
+            c2.fetch_add(1, Ordering::SeqCst);
+        }
+        if sys.name == "fsmount" || sys.name == "open_tree" || opens_proc {
+            a2.fetch_add(1, Ordering::SeqCst);
         }
         let n = count_fds(scan);
         p2.fetch_max(n, Ordering::SeqCst);
@@ -177,7 +187,7 @@ pub fn child(case: &Case) -> Report {
     let policy = Policy { observe: true, kinds: false, max_syscalls: 3000, hook: Some(hook), ..Policy::default() };
     let (sub, base) = sub_path(case);
     let path = B::new(sub);
-    let (out, masked, call) = with_session(Kcfg::Full, Some(policy), |s| {
+    let (out, masked, call) = with_session(case.kcfg, Some(policy), |s| {
         let (out, masked) = s.run(|wg, _st| {
             // the handle is created outside the measured call (except for the C API, whose
             // global handle is created by the first call that needs it)
@@ -269,6 +279,7 @@ pub fn judge(case: &Case, rep: &Report, stats: &mut Stats) -> Result<(), Fail> {
     stats.class(&format!("proc:{:?}", case.proc_opt));
     stats.class(if case.unprivileged { "caller:unprivileged" } else { "caller:root" });
     stats.class(&format!("ctor:{:?}", case.ctor));
+    stats.class(&format!("kernel:{}", case.kcfg.name()));
     stats.class(&format!("sub:{:?}", case.sub));
     stats.class(&format!("outcome:{}", rep.out.class()));
     stats.class(&format!("handle-creations-in-call:{}", rep.handle_creations.min(8)));
@@ -285,7 +296,7 @@ pub fn judge(case: &Case, rep: &Report, stats: &mut Stats) -> Result<(), Fail> {
         Fail::Violation(Violation {
             check: "procfs-bounds".into(),
             signature: sig,
-            message: format!("{:?} of \"{}\" ({:?}) via {:?}, /proc mounted {:?}, caller {}, RLIMIT_NOFILE {}\n  outcome: {}\n  handles created during the call: {}, procfs root acquisitions: {}, peak open descriptors: {}, syscalls: {}\n  {}\n  trace: {:?}", case.op, sub, case.base, case.ctor, case.proc_opt, if case.unprivileged { "uid 65534, no capabilities" } else { "root" }, case.nofile, rep.out.brief(), rep.handle_creations, rep.procfs_acquisitions, rep.peak_fds, rep.syscalls, msg, rep.trace_head.iter().take(30).collect::<Vec<_>>()),
+            message: format!("{:?} of \"{}\" ({:?}) via {:?}, /proc mounted {:?}, caller {}, RLIMIT_NOFILE {}, kernel configuration {}\n  outcome: {}\n  handles created during the call: {}, procfs root acquisitions: {}, peak open descriptors: {}, syscalls: {}\n  {}\n  trace: {:?}", case.op, sub, case.base, case.ctor, case.proc_opt, if case.unprivileged { "uid 65534, no capabilities" } else { "root" }, case.nofile, case.kcfg.name(), rep.out.brief(), rep.handle_creations, rep.procfs_acquisitions, rep.peak_fds, rep.syscalls, msg, rep.trace_head.iter().take(30).collect::<Vec<_>>()),
             case: serde_json::to_value(case).unwrap(),
         })
     };
@@ -345,11 +356,11 @@ fn replay(_ctx: &Ctx, _check: &str, case: &Value) -> Result<(), Fail> {
 pub const PROP: Prop = Prop {
     id: "C08",
     level: "exploration",
-    rule: "the full product (enumerated, not sampled: 2 x 5 x 3 x 3 x 3 x 3 = 810 cases) of caller privilege {root; uid 65534 without capabilities} x the host /proc of a private mount namespace re-mounted with {default, hidepid=1, hidepid=2, hidepid=ptraceable, subset=pid} x constructor {ProcfsHandle::new(), try_from_fd(open(\"/proc\")), C API global handle} x base x sub-path {existing, missing, existing-but-masked (stat, 1/status, sys/kernel/ostype)} x RLIMIT_NOFILE {64, 1024, 65536}, ops rotating over open / readlink / open_follow. The single call runs under the observing gate: the supervisor counts fsopen(2) calls (one per ProcfsHandle constructor invocation), procfs-root acquisitions (fsmount, open_tree, openat(\"/proc\")), open descriptors at every syscall, and syscalls; beyond 6 handle creations it answers EMFILE so that a runaway call unwinds instead of exhausting the stack. Oracle: at most 2 handle creations per call (3 when the C API's global handle is created by it), <= 40 descriptors open at once, <= 1500 syscalls, no crash/panic, and a missing path => OsError(ENOENT). non-trivial = masked handle, non-default /proc, or a missing/masked path",
-    assumptions: &["needs CAP_SYS_ADMIN to build the mount namespace and CAP_SETUID to become unprivileged", "kernel configuration is the running kernel's (fsopen available): handle creations are counted by their fsopen attempt"],
+    rule: "the full product (enumerated, not sampled: 2 x 5 x 3 x 3 x 3 x 3 x 4 = 3240 cases) of caller privilege {root; uid 65534 without capabilities} x the host /proc of a private mount namespace re-mounted with {default, hidepid=1, hidepid=2, hidepid=ptraceable, subset=pid} x constructor {ProcfsHandle::new(), try_from_fd(open(\"/proc\")), C API global handle} x base x sub-path {existing, missing, existing-but-masked (stat, 1/status, sys/kernel/ostype)} x RLIMIT_NOFILE {64, 1024, 65536} x kernel configuration {full, fsopen -> ENOSYS (open_tree clone of the host mount), whole mount API -> ENOSYS (plain open of /proc), fsopen+openat2 -> ENOSYS}, ops rotating over open / readlink / open_follow. The single call runs under the observing gate: the supervisor counts constructor invocations by their first available stage (fsopen(2), else open_tree(2), else open(\"/proc\")), procfs-root acquisitions (fsmount, open_tree, openat(\"/proc\")), open descriptors at every syscall, and syscalls; beyond 6 handle creations it answers EMFILE so that a runaway call unwinds instead of exhausting the stack. Oracle: at most 2 handle creations per call (3 when the C API's global handle is created by it), <= 40 descriptors open at once, <= 1500 syscalls, no crash/panic, and a missing path => OsError(ENOENT). non-trivial = masked handle, non-default /proc, or a missing/masked path",
+    assumptions: &["needs CAP_SYS_ADMIN to build the mount namespace and CAP_SETUID to become unprivileged", "missing mount-API entry points are emulated by seccomp ENOSYS on the library's thread"],
     lanes: |_| 16,
     run_lane,
     replay,
-    extra: Some(|_| json!({"exhaustive_scope": "all 810 combinations of the quantifier's product"})),
+    extra: Some(|_| json!({"exhaustive_scope": "all 3240 combinations of the quantifier's product"})),
     exhaustive: true,
 };
